@@ -188,7 +188,7 @@ def PyVal.mro : PyVal → List String
   | .leaf .time true _ => ["<sub>", "time"]
   | .leaf .datetime true _ => ["<sub>", "datetime", "date"]
   | .timedelta _ => ["timedelta"]
-  | .enum c _ _ => [String.ofList c, "Enum"]
+  | .enum _ _ _ => ["<user>", "Enum"]
   | .seq .list _ => ["list"]
   | .seq .set _ => ["set"]
   | .seq .frozenset _ => ["frozenset"]
@@ -197,8 +197,29 @@ def PyVal.mro : PyVal → List String
   | .map .dict _ => ["dict"]
   | .map .defaultdict _ => ["defaultdict", "dict"]
   | .map .ordereddict _ => ["OrderedDict", "dict"]
-  | .ntuple c _ _ => [String.ofList c, "tuple"]
-  | .inst ci _ => [String.ofList ci.name]
+  | .ntuple _ _ _ => ["<user>", "tuple"]
+  | .inst _ _ => ["<user>"]
+
+/-- the DumpMixin hooks, as data -/
+inductive DumpHook
+  | null | bool | int | float | str | bytes | enum | uuid | decimal | datetime | date | time | timedelta
+  | iterable | listOrTuple | namedTuple | defaultdict | dict | default | unknown
+  deriving Repr, DecidableEq, Inhabited
+
+def DumpHook.ofName (n : String) : DumpHook :=
+  if n = "dump_with_null" then .null else if n = "dump_with_bool" then .bool
+  else if n = "dump_with_int" then .int else if n = "dump_with_float" then .float
+  else if n = "dump_with_str" then .str else if n = "dump_with_bytes" then .bytes
+  else if n = "dump_with_enum" then .enum else if n = "dump_with_uuid" then .uuid
+  else if n = "dump_with_decimal" then .decimal else if n = "dump_with_datetime" then .datetime
+  else if n = "dump_with_date" then .date else if n = "dump_with_time" then .time
+  else if n = "dump_with_timedelta" then .timedelta else if n = "dump_with_iterable" then .iterable
+  else if n = "dump_with_list_or_tuple" then .listOrTuple else if n = "dump_with_named_tuple" then .namedTuple
+  else if n = "dump_with_defaultdict" then .defaultdict else if n = "dump_with_dict" then .dict
+  else if n = "default_dump_with" then .default else .unknown
+
+/-- the hook `_asdict_inner` selects for a value, given the registration table extracted from the source -/
+def hookFor (v : PyVal) : DumpHook := DumpHook.ofName (chooseHook Generated.dumpHooks v.mro)
 
 def isoZ (tok : S) : S := replaceFirst "+00:00".toList ['Z'] tok
 
@@ -265,21 +286,21 @@ def dumpV (std : Std) (ts : Bool) (cfg : Option MetaCfg) : PyVal → Except DErr
       pure (.ntuple c ys)
   | .seq k xs => do
       let ys ← dumpList std ts cfg xs
-      match chooseHook Generated.dumpHooks (PyVal.mro (.seq k [])) with
-      | "dump_with_list_or_tuple" => pure (.list ys)
-      | "dump_with_iterable" => pure (.list ys)
+      match hookFor (.seq k []) with
+      | .listOrTuple => pure (.list ys)
+      | .iterable => pure (.list ys)
       | _ => pure (.bad "seq".toList)
   | .tuple xs => do
       let ys ← dumpList std ts cfg xs
-      match chooseHook Generated.dumpHooks ["tuple"] with
-      | "dump_with_list_or_tuple" => pure (.tuple ys)
-      | "dump_with_iterable" => pure (.list ys)
+      match hookFor (.tuple []) with
+      | .listOrTuple => pure (.tuple ys)
+      | .iterable => pure (.list ys)
       | _ => pure (.bad "tuple".toList)
   | .map k kvs => do
       let ys ← dumpPairs std ts cfg kvs
-      match chooseHook Generated.dumpHooks (PyVal.mro (.map k [])) with
-      | "dump_with_dict" => pure (.dict (k == .ordereddict) ys)
-      | "dump_with_defaultdict" => pure (.dict false ys)
+      match hookFor (.map k []) with
+      | .dict => pure (.dict (k == .ordereddict) ys)
+      | .defaultdict => pure (.dict false ys)
       | _ => pure (.bad "map".toList)
   | v => dumpScalar std ts v
 
@@ -335,39 +356,39 @@ def dumpCatchAll (std : Std) (ts : Bool) (cfg : Option MetaCfg) : List (PyVal ×
 
 /-- scalar hooks -/
 def dumpScalar (std : Std) (ts : Bool) (v : PyVal) : Except DErr DVal :=
-  match chooseHook Generated.dumpHooks v.mro, v with
-  | "dump_with_null", .none => pure .null
-  | "dump_with_bool", .bool b => pure (.bool b)
-  | "dump_with_int", .int i => pure (.int i)
-  | "dump_with_int", .bool b => pure (.bool b)
-  | "dump_with_float", .float f => pure (.float f)
-  | "dump_with_str", .str s => pure (.str s)
-  | "dump_with_bytes", .bytes _ b => pure (.str (std.b64encode b))
-  | "dump_with_decimal", .leaf .decimal _ t => pure (.str t)
-  | "dump_with_uuid", .leaf .uuid _ t => pure (.str t)
-  | "dump_with_enum", .enum _ _ val => pure val.toD
-  | "dump_with_timedelta", .timedelta us => pure (.str (tdStr us))
-  | "dump_with_time", .leaf .time _ t => pure (.str (isoZ t))
-  | "dump_with_datetime", .leaf .datetime _ t =>
+  match hookFor v, v with
+  | .null, .none => pure .null
+  | .bool, .bool b => pure (.bool b)
+  | .int, .int i => pure (.int i)
+  | .int, .bool b => pure (.bool b)
+  | .float, .float f => pure (.float f)
+  | .str, .str s => pure (.str s)
+  | .bytes, .bytes _ b => pure (.str (std.b64encode b))
+  | .decimal, .leaf .decimal _ t => pure (.str t)
+  | .uuid, .leaf .uuid _ t => pure (.str t)
+  | .enum, .enum _ _ val => pure val.toD
+  | .timedelta, .timedelta us => pure (.str (tdStr us))
+  | .time, .leaf .time _ t => pure (.str (isoZ t))
+  | .datetime, .leaf .datetime _ t =>
       if ts then
         match std.datetimeTimestamp t with
         | some i => pure (.int i)
         | none => .error (.stdError "timestamp".toList)
       else pure (.str (isoZ t))
-  | "dump_with_date", .leaf .date _ t =>
+  | .date, .leaf .date _ t =>
       if ts then
         match std.dateTimestamp t with
         | some i => pure (.int i)
         | none => .error (.stdError "timestamp".toList)
       else pure (.str t)
-  | "dump_with_date", .leaf .datetime _ t =>      -- a datetime sent through the date hook keeps its own isoformat()
+  | .date, .leaf .datetime _ t =>      -- a datetime sent through the date hook keeps its own isoformat()
       if ts then
         match std.dateTimestamp t with
         | some i => pure (.int i)
         | none => .error (.stdError "timestamp".toList)
       else pure (.str t)
-  | "default_dump_with", .leaf _ _ t => pure (.str t)         -- str(o): Path (no hook registered)
-  | "default_dump_with", .str s => pure (.str s)
+  | .default, .leaf _ _ t => pure (.str t)         -- str(o): Path (no hook registered)
+  | .default, .str s => pure (.str s)
   | _, _ => pure (.bad "unmodelled-hook".toList)
 end
 
